@@ -137,26 +137,32 @@ const (
 	sErrTxDone
 	sErrEOF
 	sErrGormInvalidTx
-	sLast = sErrGormInvalidTx
+	// re-entrant use: the step calls Transact on the transaction handle it was given (gorm refuses to
+	// begin on a handle that is already in a transaction); the step ignores / returns that error
+	sNestedIgnored
+	sNestedPropagated
+	sLast = sNestedPropagated
 )
 
 var kindNames = []string{"ok", "ok+exec", "returns-error", "exec-fails", "panics(string)", "panics(error)", "panics(nil)",
-	"returns-context.Canceled", "returns-context.DeadlineExceeded", "returns-wrapped-context.Canceled", "returns-sql.ErrTxDone", "returns-io.EOF", "returns-gorm.ErrInvalidTransaction"}
+	"returns-context.Canceled", "returns-context.DeadlineExceeded", "returns-wrapped-context.Canceled", "returns-sql.ErrTxDone", "returns-io.EOF", "returns-gorm.ErrInvalidTransaction",
+	"nested-Transact(result ignored)", "nested-Transact(result returned)"}
 
 var specialErrs = map[stepKind]error{
 	sErrCtxCanceled: context.Canceled, sErrCtxDeadline: context.DeadlineExceeded, sErrWrappedCtx: fmt.Errorf("step failed: %w", context.Canceled),
 	sErrTxDone: sql.ErrTxDone, sErrEOF: io.EOF, sErrGormInvalidTx: gorm.ErrInvalidTransaction,
 }
 
-func (k stepKind) fails() bool { return k >= sErr }
+func (k stepKind) fails() bool { return k >= sErr && k != sNestedIgnored }
 
 type panicErr struct{}
 
 func (panicErr) Error() string { return "panic-error-value" }
 
 type run struct {
-	ran     []int
-	stepErr []error
+	ran       []int
+	stepErr   []error
+	nestedBad string
 }
 
 func mkStep(i int, k stepKind, e *env, r *run) gormx.GormProcFn {
@@ -181,6 +187,22 @@ func mkStep(i int, k stepKind, e *env, r *run) gormx.GormProcFn {
 		case sPanicNil:
 			var p interface{}
 			panic(p)
+		case sNestedIgnored, sNestedPropagated:
+			before := len(e.events)
+			innerRan := false
+			ierr := gormx.Transact(txn, func(*gorm.DB) error { innerRan = true; return nil })
+			switch {
+			case innerRan:
+				r.nestedBad = "a Transact on a handle that is already in a transaction ran its step"
+			case ierr == nil:
+				r.nestedBad = "a Transact that could not begin (handle already in a transaction) returned nil"
+			case len(e.events) != before:
+				r.nestedBad = fmt.Sprintf("a Transact that could not begin touched the surrounding transaction: driver events %v", e.events[before:])
+			}
+			if k == sNestedPropagated {
+				return ierr
+			}
+			return nil
 		default:
 			return specialErrs[k]
 		}
@@ -254,6 +276,8 @@ func check(c *seq.Ctx, kinds []stepKind, failBegin, failCommit, failRollback boo
 		}
 	}
 	switch {
+	case r.nestedBad != "":
+		fail("a failed begin is not side-effect free", r.nestedBad)
 	case escaped != "":
 		fail("a panic escapes Transact", "panic escaped: "+escaped)
 	case len(kinds) == 0:
@@ -320,6 +344,8 @@ func check(c *seq.Ctx, kinds []stepKind, failBegin, failCommit, failRollback boo
 					if !strings.Contains(res.Error(), "panic") {
 						fail("the result does not describe the panic", "wrong error")
 					}
+				case sNestedPropagated:
+					// the inner call's begin error, whatever gorm calls it
 				default:
 					if !errors.Is(res, specialErrs[kinds[firstFail]]) {
 						fail("the result is not the first failing step's error", "wrong error")
@@ -332,9 +358,70 @@ func check(c *seq.Ctx, kinds []stepKind, failBegin, failCommit, failRollback boo
 	c.Case(cls, bad, sig, func() interface{} { return desc })
 }
 
+// checkHeld: Transact is handed a handle the caller has already begun a transaction on (gorm cannot
+// begin on it): no step runs, an error is returned, and the caller's transaction is left alone - the
+// caller can still commit or roll it back.
+func checkHeld(c *seq.Ctx, kinds []stepKind, callerCommits bool) {
+	e := &env{}
+	g, sdb, err := open(e)
+	if err != nil {
+		c.Case("open", "cannot open gorm over the fake driver: "+err.Error(), "harness: open failed", nil)
+		return
+	}
+	defer sdb.Close()
+	held := g.Begin()
+	if held.Error != nil {
+		c.Case("open", "caller's Begin failed: "+held.Error.Error(), "harness: begin failed", nil)
+		return
+	}
+	r := &run{stepErr: make([]error, len(kinds))}
+	var steps []gormx.GormProcFn
+	var names []string
+	for i, k := range kinds {
+		r.stepErr[i] = fmt.Errorf("step-%d-error", i)
+		steps = append(steps, mkStep(i, k, e, r))
+		names = append(names, kindNames[k])
+	}
+	e.events = nil
+	res := gormx.Transact(held, steps...)
+	during := append([]string(nil), e.events...)
+	var cerr error
+	if callerCommits {
+		cerr = held.Commit().Error
+	} else {
+		cerr = held.Rollback().Error
+	}
+	desc := fmt.Sprintf("handle already in a transaction, steps=%v, caller then commits=%v", names, callerCommits)
+	bad, sig := "", ""
+	fail := func(s, m string) {
+		if bad == "" {
+			sig, bad = s, fmt.Sprintf("%s: %s (driver events during Transact %v, afterwards %v, steps run %v, result %v, caller's finish error %v)", desc, m, during, e.events[len(during):], r.ran, res, cerr)
+		}
+	}
+	if len(kinds) > 0 {
+		if len(r.ran) != 0 {
+			fail("a step runs after a failed begin", "steps ran")
+		}
+		if res == nil {
+			fail("a failed begin is reported as success", "nil result")
+		}
+	}
+	if len(during) != 0 {
+		fail("a failed begin is not side-effect free", "Transact touched the caller's transaction")
+	}
+	want := "Rollback"
+	if callerCommits {
+		want = "Commit"
+	}
+	if cerr != nil || fmt.Sprint(e.events[len(during):]) != "["+want+"]" {
+		fail("a failed begin is not side-effect free", "the caller can no longer finish its own transaction")
+	}
+	c.Case(fmt.Sprintf("held/len=%d/commit=%v", len(kinds), callerCommits), bad, sig, func() interface{} { return desc })
+}
+
 func main() {
 	r := ev.Start("C18")
-	r.Rule("every step list of length 0..n over {ok, ok+Exec, returns error, Exec fails, panics(string), panics(error), panics(nil)} x begin ok/fails x commit ok/fails x rollback ok/fails x {plain, Combine(all), Combine(tail), nested Combine}, run through gormx.Transact on gorm's MySQL dialector over an in-process database/sql driver that records Begin/Exec/Commit/Rollback; distinct = (length, outcome class, fault pattern, wrapping)")
+	r.Rule("every step list of length 0..n over {ok, ok+Exec, returns error, Exec fails, panics(string), panics(error), panics(nil), special error values, a nested Transact on the step's own handle with its result ignored/returned} x begin ok/fails x commit ok/fails x rollback ok/fails x {plain, Combine(all), Combine(tail), nested Combine}, run through gormx.Transact on gorm's MySQL dialector over an in-process database/sql driver that records Begin/Exec/Commit/Rollback; plus Transact on a handle the caller already began a transaction on (no step, error, caller's transaction untouched and still finishable); distinct = (length, outcome class, fault pattern, wrapping)")
 	r.Assume("a failing driver callback has no effect", "panic(nil) follows the toolchain's semantics for the harness module (go 1.21: *runtime.PanicNilError)")
 	n := r.Pick(3, 4)
 	seq.RunFamily(r, seq.Family{Name: "transact", Run: func(c *seq.Ctx) {
@@ -367,6 +454,24 @@ func main() {
 		}
 		for l := 0; l <= n; l++ { // shortest lists first, so the first counterexample is the shortest
 			rec(l)
+		}
+	}})
+	seq.RunFamily(r, seq.Family{Name: "transact-on-a-handle-already-in-a-transaction", Run: func(c *seq.Ctx) {
+		for l := 0; l <= 2; l++ {
+			kinds := make([]stepKind, l)
+			var rec func(i int)
+			rec = func(i int) {
+				if i == l {
+					checkHeld(c, kinds, true)
+					checkHeld(c, kinds, false)
+					return
+				}
+				for k := sOK; k <= sLast; k++ {
+					kinds[i] = k
+					rec(i + 1)
+				}
+			}
+			rec(0)
 		}
 	}})
 	r.Finish()
